@@ -495,6 +495,51 @@ def shape_table(ctx, dims, maxrank):
     return n
 
 
+def binary_shape_table(ctx):
+    """LinopShape.tla: every (constructor, operand shapes over {1,2,3}) row on dense and matrix-free operands: accepted or rejected as
+    predicted; an accepted construction declares the predicted shape and its products equal the dense matrix's"""
+    c = dict(Sizes={1, 2, 3}, FullShapeCompared=True)
+    t, cf = tlcmod.gen_mc(ctx.work, "LinopShape", "MC_LinopShape", c, invariants=["OnlyConformable"])
+    dot = os.path.join(ctx.work, "ls.dot")
+    ctx.model_check(t, cf, workers=4, dump_dot=dot, label="shapes of binary constructions", timeout=300)
+    nodes, _, _ = tlcmod.parse_dot(dot)
+    os.remove(dot)
+    t2, cf2 = tlcmod.gen_mc(ctx.work, "LinopShape", "MC_LinopShape_dev", dict(c, FullShapeCompared=False), invariants=["OnlyConformable"])
+    ctx.expect_violation(t2, cf2, inv="OnlyConformable", label="deviation FullShapeCompared", workers=4, timeout=300)
+    mv_only = make_leaf_class(set(), [], "R4")
+    g = torch.Generator().manual_seed(17)
+    n = 0
+    with warnings.catch_warnings():
+        warnings.simplefilter("ignore")
+        for st in sorted(nodes.values(), key=lambda s_: (s_["op"], s_["r1"], s_["c1"], s_["r2"], s_["c2"])):
+            opn, r1, c1, r2, c2, pred = str(st["op"]), int(st["r1"]), int(st["c1"]), int(st["r2"]), int(st["c2"]), st["pred"]
+            for ka, kb in (("dense", "dense"), ("matrix-free", "dense"), ("dense", "matrix-free")):
+                n += 1
+                ctx.case(key=("linop-shape", opn, r1, c1, r2, c2, ka, kb))
+                Am, Bm = torch.randn(r1, c1, generator=g, dtype=torch.float64), torch.randn(r2, c2, generator=g, dtype=torch.float64)
+                mk = lambda kind, m_: LinearOperator.m(m_) if kind == "dense" else mv_only(m_, False)
+                why = None
+                try:
+                    a_, b_ = mk(ka, Am), mk(kb, Bm)
+                    res = {"add": lambda: a_ + b_, "sub": lambda: a_ - b_, "matmul": lambda: a_.matmul(b_)}[opn]()
+                    if not pred["accept"]:
+                        why = "accepted (declared shape %s), the specification rejects it" % (tuple(res.shape),)
+                    else:
+                        D = Am @ Bm if opn == "matmul" else (Am + Bm if opn == "add" else Am - Bm)
+                        if tuple(res.shape[-2:]) != tuple(int(x) for x in pred["shape"]):
+                            why = "declared shape %s, specification %s" % (tuple(res.shape), tuple(pred["shape"]))
+                        elif not torch.allclose(res.fullmatrix(), D, atol=1e-12):
+                            why = "fullmatrix differs from the dense result"
+                        elif not torch.allclose(res.rmv(torch.ones(D.shape[0], dtype=torch.float64)), D.T @ torch.ones(D.shape[0], dtype=torch.float64), atol=1e-12):
+                            why = "rmv differs from the dense adjoint product"
+                except (RuntimeError, TypeError, AssertionError) as e:
+                    if pred["accept"]:
+                        why = "raised %s: %s" % (type(e).__name__, str(e)[:100])
+                if why:
+                    ctx.violation("linopshape/%s" % opn, "%s of a %dx%d (%s) and a %dx%d (%s) operator: %s" % (opn, r1, c1, ka, r2, c2, kb, why), {"op": opn, "shapes": [r1, c1, r2, c2]})
+    return n
+
+
 def rejections(ctx):
     """shape / Hermiticity violations are rejected"""
     n = 0
@@ -564,7 +609,7 @@ def run(ctx):
     for hname, hh in HIERARCHIES.items():
         npaths += cache_replay(ctx, hname, hh, 4 if thorough else 3)
     nshape = shape_table(ctx, [1, 2, 3], 2)
-    nrej = rejections(ctx)
+    nrej = rejections(ctx) + binary_shape_table(ctx)
     ctx.replayed = ne + npaths + nshape
     ctx.notes.update(expression_trees_enumerated=nn_, expression_trees_replayed=ne, instantiation_histories_replayed=npaths,
                      shape_cases=nshape, rejection_cases=nrej)
